@@ -139,6 +139,11 @@ func genC20(t *rapid.T) *Case {
 	if g.chance(40, "rw") {
 		blocks = append(blocks, g.c20Rewritten())
 	}
+	// a data table (an atomic element that the walk does not descend into) somewhere in the article
+	if g.chance(35, "dtable") {
+		pos := g.intn(0, len(blocks), "tpos")
+		blocks = append(blocks[:pos], append([]string{g.dataTable()}, blocks[pos:]...)...)
+	}
 	nm := g.intn(1, 3, "nmarked")
 	for i := 0; i < nm; i++ {
 		pos := g.intn(0, len(blocks), "mpos")
